@@ -8,7 +8,6 @@ import (
 	"bytes"
 	"encoding/json"
 	"fmt"
-	"path"
 	"reflect"
 	"sort"
 	"strings"
@@ -297,6 +296,16 @@ func compare(scen string, in In, o Obs) []*mc.Violation {
 	} else if !reflect.DeepEqual(o.Sizes, wantSizes) {
 		bad("ar-index-lists-all-members", fmt.Sprint(wantSizes), fmt.Sprint(o.Sizes))
 	}
+	for _, d := range CompareContent(in, o) {
+		bad(d[0], d[1], d[2])
+	}
+	return vs
+}
+
+// CompareContent compares the control fields and the payload of a successful load with the model; each difference
+// is {clause, expected, observed}. (C16 reuses it: "the exposed content is the signed content".)
+func CompareContent(in In, o Obs) [][3]string {
+	var out [][3]string
 	// control fields
 	e := in.Exp
 	type pair struct{ name, got, want string }
@@ -332,13 +341,13 @@ func compare(scen string, in In, o Obs) []*mc.Violation {
 		wants = append(wants, fmt.Sprintf("Order=%v (%d values)", wantOrder, len(in.Model.Fields)))
 	}
 	if len(diffs) > 0 {
-		bad("control-fields-equal-packaged-paragraph", strings.Join(wants, "; "), strings.Join(diffs, "; "))
+		out = append(out, [3]string{"control-fields-equal-packaged-paragraph", strings.Join(wants, "; "), strings.Join(diffs, "; ")})
 	}
 	// payload
 	if v := comparePayload(in.Model.DataFiles, o); v != "" {
-		bad("data-stream-lists-packaged-files", describeFiles(in.Model.DataFiles), v)
+		out = append(out, [3]string{"data-stream-lists-packaged-files", describeFiles(in.Model.DataFiles), v})
 	}
-	return vs
+	return out
 }
 
 func memberNames(ms []gen.ArMember) string {
@@ -418,7 +427,7 @@ func Check(scen string, in In) ([]*mc.Violation, []Obs) {
 	if len(classes) > 1 {
 		var briefs []string
 		for _, o := range classes {
-			briefs = append(briefs, o.Brief())
+			briefs = append(briefs, o.Shape())
 		}
 		sort.Strings(briefs)
 		vs = append(vs, mc.V(scen, "same-bytes-same-result", in, "every load of the same bytes gives the same result",
@@ -457,4 +466,9 @@ func Replay(scenario string, raw json.RawMessage) []*mc.Violation {
 	return vs
 }
 
-func cleanIsControl(n string) bool { return path.Clean(n) == "control" }
+// SampleModel returns the "full" paragraph model with its typed reading, a control tar of four entries and a payload
+// of a directory, a file with binary bytes and an empty file, in the given encodings (shared with C16).
+func SampleModel(controlComp, dataComp string) (gen.DebModel, Expect) {
+	p := paragraphs()[1]
+	return gen.DebModel{Fields: p.fields, ControlEntries: controlEntrySets[2], DataFiles: dataFileSets()[2], ControlComp: controlComp, DataComp: dataComp}, p.exp
+}
